@@ -329,10 +329,11 @@ pub fn encode(ts: &TileSet, o: &EncOpts, rng: &mut Rng) -> Vec<u8> {
 	}
 	// entries, with optional runs
 	let mut entries: Vec<Entry> = vec![];
-	for (i, (id, _)) in ids.iter().enumerate() {
-		if o.runs {
+	for (i, (id, v)) in ids.iter().enumerate() {
+		if o.runs && i > 0 {
 			if let Some(last) = entries.last_mut() {
-				if last.id + last.run as u64 == *id && (last.offset, last.length) == placed[i] {
+				// consecutive ids with identical content form a run (the content is addressed once)
+				if last.id + last.run as u64 == *id && ids[i - 1].1 == *v {
 					last.run += 1;
 					continue;
 				}
